@@ -72,6 +72,18 @@ Definition not_read_back (env : enum_env) (d : prop) : Prop :=
 
 Local Notation plain name t := (P name false false t []).
 
+(* string format — StringField.format is not written at all *)
+Theorem C04_string_format_refuted :
+  not_read_back (EE [] []) (plain [97] (PSingle (TStr (Some [117;114;105]) None None))).
+Proof. eexists. split; [vm_compute; reflexivity|]. vm_compute. discriminate. Qed.
+Print Assumptions C04_string_format_refuted.
+
+(* array of any with types — (j5.ext.v1.field).any is replaced by the array annotation *)
+Theorem C04_array_any_types_refuted :
+  not_read_back (EE [] []) (plain [97] (PArray None None (TAny true [[120]] None))).
+Proof. eexists. split; [vm_compute; reflexivity|]. vm_compute. discriminate. Qed.
+Print Assumptions C04_array_any_types_refuted.
+
 (* key:custom — the pattern becomes (buf.validate.field).string.pattern and is not read back as a key format *)
 Theorem C04_key_custom_refuted :
   not_read_back (EE [] []) (plain [97] (PSingle (TKey (Some (KCustom [94;97;36])) None None))).
@@ -110,7 +122,7 @@ Print Assumptions C04_array_flatten_refuted.
 
 (* map values: list rules of the item schema stay on the entry's value field and are not read back *)
 Theorem C04_map_item_listrules_refuted :
-  not_read_back (EE [] []) (plain [97] (PMap None (TStr None (Some (LP false false true false []))))).
+  not_read_back (EE [] []) (plain [97] (PMap None (TStr None None (Some (LP false false true false []))))).
 Proof. eexists. split; [vm_compute; reflexivity|]. vm_compute. discriminate. Qed.
 Print Assumptions C04_map_item_listrules_refuted.
 
@@ -144,11 +156,11 @@ Print Assumptions C04_reader_table_agrees.
 Example C04_example :
   let env := EE [67;95] [[82];[71]] in
   let ds := [ P [97] true false (PSingle (TInt I32 (Some (IR (Some 1%Z) (Some 10%Z) (Some false) (Some true))) (Some (LP true true false false [])))) [100;101;115;99];
-              P [98] false true (PSingle (TStr (Some (SR (Some [94;97;36]) (Some 0) (Some 5))) None)) [];
+              P [98] false true (PSingle (TStr None (Some (SR (Some [94;97;36]) (Some 0) (Some 5))) None)) [];
               P [99] false false (PArray (Some (AR (Some 1) None (Some true))) (Some [120]) (TEnum (Some (ER [[82]] [[67;95;71]])) None)) [];
               P [100] false false (PSingle (TKey (Some KId62) (Some (EK (Some (EPrimary true)) (Some [116]))) None)) [];
               P [101] false false (PSingle (TDate (Some (TR (Some [50]) None (Some true) None)) None)) [];
-              P [102] true false (PMap (Some (MR (Some 1) None)) (TStr (Some (SR None (Some 2) None)) None)) [] ] in
+              P [102] true false (PMap (Some (MR (Some 1) None)) (TStr None (Some (SR None (Some 2) None)) None)) [] ] in
   forallb rt_ok ds = true /\
   exists os, write_object env ds = Ok os /\ read_object env os = Ok (norm_object env ds)
              /\ map (fun r => p_req (rp_prop r)) (norm_object env ds) = [true; false; false; true; false; true].
